@@ -101,7 +101,7 @@ def evaluate(text):
                 "md009": any(l.endswith(" ") for l in m.lines),
                 "md010": "\t" in text,
                 "md012": "\n\n\n" in "\n" + text,
-                "md013": any(len(l) > 12 for l in m.lines),
+                "md013": any(len(l) > 5 for l in m.lines),
                 "md022": "heading" in kinds,
                 "md025": "heading" in kinds,
                 "md026": "heading" in kinds,
